@@ -36,7 +36,10 @@ CLAIM = ('Over all code (not sampled inputs): every constant key used to index a
          'has changed the insertion mode or the stack first. A hand-back that follows only a call which may '
          "have done nothing is conditional; insertion-mode switches are the standard's (handlers rely on the "
          'skeleton their mode implies); name tests in resetInsertionMode apply to HTML elements only; a '
-         'possibly-None result is not passed where it is dereferenced.')
+         'possibly-None result is not passed where it is dereferenced. int() of input text is guarded against '
+         "CPython's digit limit; a name test on the current node that leads to an innerHTML assertion also "
+         'tests the namespace in every phase in which the current node can be foreign; HTML-ness is tested '
+         'against tree.defaultNamespace; the DOM back-end checks the real parent before removing a child.')
 NOT_DECIDED = ("unreachability of the `assert ...innerHTML` sites in document mode, termination of the tree-construction "
                "reprocessing loop, exceptions raised inside xml.dom.minidom / ElementTree, wall-clock.")
 MODULES = ["html5parser.py", "treebuilders/base.py", "treebuilders/etree.py", "treebuilders/dom.py", "_tokenizer.py",
@@ -1200,6 +1203,8 @@ def thorough(ctx):
 def mutants():
     from ..selftest import TextMutant as T
     return [
+        T("foreign-endtag-constant-ns", "html5parser.py", "            if node.namespace != self.tree.defaultNamespace:\n                continue\n            else:\n                new_token = self.parser.phase.processEndTag(token)", "            if node.namespace != namespaces[\"html\"]:\n                continue\n            else:\n                new_token = self.parser.phase.processEndTag(token)", "C03.14"),
+        T("dom-removechild-unguarded", "treebuilders/dom.py", "            if node.element.parentNode == self.element:\n                self.element.removeChild(node.element)", "            self.element.removeChild(node.element)", "C03.15"),
         T("table-eof-name-only", "html5parser.py", "        if (self.tree.openElements[-1].name != \"html\" or\n                self.tree.openElements[-1].namespace != self.tree.defaultNamespace):\n            self.parser.parseError(\"eof-in-table\")",
           "        if self.tree.openElements[-1].name != \"html\":\n            self.parser.parseError(\"eof-in-table\")", "C03.10"),
         T("table-body-context-name-only", "html5parser.py", "        while (self.tree.openElements[-1].namespace != self.tree.defaultNamespace or\n               self.tree.openElements[-1].name not in (\"tbody\", \"tfoot\",\n                                                       \"thead\", \"html\")):",
